@@ -60,5 +60,36 @@ CHECKS = {
         'under oblivious consumer pacing, within a progress bound.',
    note='Trusted: the trace oracle; a strobe pulse is one contiguous high run inside the command window; CMDResponse size is a nibble count.',
    ref='DESIGN.md section 4 C20'),
+ 'C02': dict(level='translation_validation', engine='E4 verilog interpreter + program generator (vlib/c02.py)',
+   technique='translation validation by lockstep co-execution of generated behavioural classes: Python method in the real simulator vs. transpiled always-block module in the /verif interpreter, with a domain filter',
+   text='Library behavioural classes and classes generated from a grammar over the supported subset (plus the same grammar with one unsupported or suspect construct injected) are '
+        'transpiled by the real generator; each accepted program is validated individually by co-executing the Python method and the emitted module for 32-64 cycles, comparing outputs and integer state '
+        'after every step that stays inside the domain of the statement. Refusals are acceptable; accepted text must be valid and equivalent.',
+   note='Trusted: E4 semantics incl. the unbounded-integer shadow evaluation used as domain filter; programs are real .py files (inspect.getsource); after an out-of-domain step the Verilog state is re-synchronised to the Python state.',
+   ref='DESIGN.md section 4 C02'),
+ 'C03': dict(level='exploration', engine='E4 parser + elaborator + well-formedness checker',
+   technique='offline checker over recorded generator output: every emitted text is parsed, resolved and elaborated by an independent front end; interchangeability judged from the live objects sharing a module name',
+   text='Every text emitted for the unit, sequential, random-composition, naming-stress, optional-port-reuse, system-block and transpiled-corpus workloads is parsed, resolved and elaborated: identifiers declared '
+        'exactly once and not reserved, instantiated modules defined once with matching ports/widths/directions, one driver of the right kind per net; objects that share a module name must have '
+        'identical interfaces and bodies.',
+   note='Trusted: the E4 front end; leniencies: bit-select [0] of a scalar, widths of unsized literals, memories written from two always blocks (dual-port RAM template), never-instantiated modules.',
+   ref='DESIGN.md section 4 C03'),
+ 'C12': dict(level='exploration', engine='reference oracles: struct, fractions.Fraction, integers',
+   technique='runtime reference-model monitor: helper functions called on exhaustive half-precision patterns and boundary/random single/double patterns, results judged bit-exactly by struct/Fraction references',
+   text='All 2**16 half patterns exhaustively, boundary x boundary + random single/double patterns, two\'s complement exhaustive for small widths, FPNum arithmetic compared as exact rationals, FixedPoint helper on '
+        'all small formats exhaustively.',
+   note='Trusted: struct/Fraction references; NaN payloads excepted as stated.',
+   ref='DESIGN.md section 4 C12'),
+ 'C13': dict(level='exploration', engine='exact rational references for the five single-precision blocks',
+   technique='runtime reference-model monitor: real FP blocks simulated over structured operand pairs (all exponent gaps, mantissa boundaries, cancellation pairs, integer boundary set), judged with exact rationals',
+   text='FPComparator_SP (plain/absolute), InttoFP_SP, FPtoInt_SP, FPMult_SP and FPAdder_SP are simulated in one system over generated operands covering every exponent gap, mantissa boundary patterns, '
+        'opposite-sign close magnitudes and the integer boundary set; each clause of the statement is judged with fractions.Fraction.',
+   note='Trusted: the rational references; ulp = larger of ulp(exact) and ulp(returned).',
+   ref='DESIGN.md section 4 C13'),
+ 'C14': dict(level='exploration', engine='exact scaled-integer references',
+   technique='runtime reference-model monitor: fixed-point blocks simulated exhaustively over all operand pairs of small formats and boundary/random pairs of wide formats, judged with Fraction arithmetic',
+   text='FixedPointAdd/Sub/Mult/Sign/Comparator for every format (1, iw, fw) with iw+fw <= 7 exhaustively over operand pairs, mixed formats, and wide formats on boundary x boundary + random.',
+   note='Trusted: the Fraction references; product = floor (bit truncation of the two\'s-complement product).',
+   ref='DESIGN.md section 4 C14'),
 }
 PENDING = {}
